@@ -116,27 +116,41 @@ def iso_pdf_table(n):
     return b, [di / z for di in d]
 
 
-def ref_density(n, x, floor):
-    """density the leaf represents at observed x (float); `floor` = out-of-support constant of Isotonic"""
+LN2 = math.log(2.0)
+
+
+def exp_frac(l):
+    """exact rational within ~1e-15 relative of exp(l), for any float l (no under/overflow)"""
+    if l == -math.inf:
+        return Fraction(0)
+    k = math.floor(l / LN2)
+    m = math.exp(l - k * LN2)
+    return Fraction(m) * (Fraction(2) ** k)
+
+
+def ref_logdensity(n, x, floor):
+    """log-density the leaf represents at observed x (float); `floor` = out-of-support constant of Isotonic"""
     x = float(x)
     if isinstance(n, Gaussian):
         m, s = float(n.mean), float(n.stddev)
         z = (x - m) / s
-        if abs(z) > 38:
-            return 0.0
-        return math.exp(-0.5 * z * z) / (s * math.sqrt(2.0 * math.pi))
+        return -0.5 * z * z - math.log(s) - 0.5 * math.log(2.0 * math.pi)
     if isinstance(n, Uniform):
         a, w = float(n.start), float(n.width)
-        return (1.0 / w) if (a <= x <= a + w) else 0.0
+        return -math.log(w) if (a <= x <= a + w) else -math.inf
     if isinstance(n, Isotonic):
         b, pdf = iso_pdf_table(n)
         if x <= b[0] or x >= b[-1]:
-            return floor
+            return math.log(floor)
         for i in range(len(pdf)):
             if b[i] <= x < b[i + 1]:
-                return pdf[i]
-        return floor
+                return math.log(pdf[i]) if pdf[i] > 0 else -math.inf
+        return math.log(floor)
     raise Infra('not a continuous leaf')
+
+
+def ref_density(n, x, floor):
+    return exp_frac(ref_logdensity(n, x, floor))
 
 
 def row_payload(order, x, nvars, floor=2.0 ** -23):
@@ -153,7 +167,7 @@ def row_payload(order, x, nvars, floor=2.0 ** -23):
         elif v in cont:
             row.append(0)
             for i, n in cont[v]:
-                dens[str(i)] = fstr(frac(ref_density(n, xv, floor)))
+                dens[str(i)] = fstr(ref_density(n, xv, floor))
         else:
             row.append(int(xv))
     return row, dens
